@@ -47,7 +47,18 @@ def registry():
 
 
 def proof_items():
-    return [ProofItem(check_dim_lengths, bounds={"maxlen": 2, "objs": ("o",), "strs": ("a",), "per_len": 40})]
+    from contracts import sweep_c
+    return [ProofItem(check_dim_lengths, bounds={"maxlen": 2, "objs": ("o",), "strs": ("a",), "per_len": 40}),
+            # "+ / MultiSweep yields their concatenation": the list of sweeps behind a MultiSweep
+            ProofItem(sweep_c.multisweep_combine, gen=sweep_c.combine_gen,
+                      registry=lambda: {**{c.short: c for c in sweep_c.ALL}, **{c.name: c for c in sweep_c.ALL}}),
+            ProofItem(sweep_c.sweep_add, gen=sweep_c.sweep_add_gen, registry=_add_reg),
+            ProofItem(sweep_c.multisweep_add, gen=sweep_c.add_gen, registry=_add_reg)]
+
+
+def _add_reg():
+    from contracts import sweep_c
+    return {**{c.short: c for c in sweep_c.ADD}, **{c.name: c for c in sweep_c.ADD}}
 
 
 # ---- reference semantics (from the statement) ---------------------------------------------------------------
